@@ -319,6 +319,22 @@ def r4(ctx, prog):
             subs = [v for v in subs if v is not None]
             ok3 = width == needv and (not subs or max(subs) == needv - 1)
             ctx.ob('C15.R4', '%s(%s)|width' % (f.name, sig), ok3, 'checked size %s = sizeof(output) %s = highest byte index + 1 (%s)' % (needv, width, max(subs) + 1 if subs else '-'), where=f.loc(f.body))
+    # checkSize / set_pos themselves, folded over a grid: k more bytes can be read exactly when pos + k <= size; a position is accepted exactly when pos < size
+    for name, want in (('checkSize', lambda pos, k, size: pos + k <= size), ('set_pos', None)):
+        for g in [m for m in prog.methods_of(DES) if m.short == name]:
+            rets = q.returns(g)
+            if name == 'checkSize' and len(rets) == 1 and rets[0].get('val') is not None:
+                bad = []
+                for size in range(0, 4):
+                    for pos in range(0, size + 1):
+                        for k in range(0, 4):
+                            v = q.eval_expr(g, rets[0]['val'], lambda sx, pos=pos, k=k, size=size: pos if (sx['k'] == 'MemberExpr' and sx.get('n') == 'pos_') else
+                                            (size if (sx['k'] == 'MemberExpr' and sx.get('n') == 'size_') else (k if (sx['k'] == 'DeclRefExpr' and sx.get('dk') == 'ParmVar') else None)))
+                            if v is None or bool(v) != want(pos, k, size):
+                                bad.append((pos, k, size))
+                ctx.ob('C15.R4', '%s|exact' % g.name, not bad, 'checkSize(k) answers exactly pos + k <= size' if not bad else
+                       'checkSize(%d) with the cursor at %d of %d byte(s) answers %s: %s' % (bad[0][1], bad[0][0], bad[0][2], 'no' if want(*bad[0]) else 'yes',
+                                                                                             'the last byte of a datagram cannot be read' if want(*bad[0]) else 'a read past the end is allowed'), where=g.loc(rets[0]['i']))
     if n < 7:
         raise AnalysisBroken('expected >=7 Deserializer readers, found %d' % n)
     sp = prog.fn1(DES + '::set_pos')
